@@ -17,7 +17,7 @@ import (
 // symbolic rune names of the spec -> bytes fed to the code / text expected back
 var vtIn = map[string]string{
 	"EACUTE": "é", "EACUTEU": "É", "ENDASH": "–", "EMDASH": "—", "FIGDASH": "‒", "HYPHEN": "‐",
-	"COPY": "©", "SECT": "§", "CURR": "¤", "MIDDOT": "·", "NBSP": "\u00a0", "RQUOTE": "’", "A4": "𝒜", "BAD": "\xff",
+	"NBHYPHEN": "\u2011", "HBAR": "\u2015", "MINUS": "\u2212", "COPY": "©", "SECT": "§", "CURR": "¤", "MIDDOT": "·", "NBSP": "\u00a0", "RQUOTE": "’", "A4": "𝒜", "BAD": "\xff",
 }
 var vtOut = map[string]string{"BAD": "�"}
 
